@@ -68,6 +68,8 @@ type world struct {
 	// modes by field name
 	modes   map[string]fieldMode
 	latency bool
+	ver     map[string]int // datum versions (live harness)
+	live    *liveState     // non-nil in the live (websocket) harness
 }
 
 type failure struct {
@@ -89,7 +91,7 @@ type fallbackKey struct{}
 func pick(c *runner.Ctx, n int, kind string) int { return c.Choose(n, kind) }
 
 func newWorld(c *runner.Ctx) *world {
-	w := &world{c: c, fail: map[string]failure{}, modes: map[string]fieldMode{}}
+	w := &world{c: c, fail: map[string]failure{}, modes: map[string]fieldMode{}, ver: map[string]int{}}
 	w.nA, w.nB, w.nC = 1+pick(c, 6, "nA"), 1+pick(c, 5, "nB"), 1+pick(c, 4, "nC")
 	for i := 0; i < w.nA; i++ {
 		w.as = append(w.as, &A{ID: int64(100 + i), Name: fmt.Sprintf("a%d", i)})
@@ -151,6 +153,12 @@ func newWorld(c *runner.Ctx) *world {
 // point is called by every resolver: a scheduling point, optional simulated
 // latency, and the fault plan.
 func (w *world) point(ctx context.Context, field string, id int64) error {
+	if w.live != nil {
+		// the correct reader protocol: register the dependency before reading
+		if err := w.live.dep(ctx, field, id); err != nil {
+			return err
+		}
+	}
 	if w.latency && w.c.Biased(4, 600, "resolver-latency") > 0 {
 		simrt.Sleep(time.Duration(1+w.c.Choose(3, "latency")) * time.Millisecond)
 	} else {
@@ -205,15 +213,24 @@ func (w *world) u(r ref) *U {
 	return nil
 }
 
-func tagVal(id, x int64) string   { return fmt.Sprintf("tag-%d-%d", id, x) }
-func scoreVal(id int64) int64     { return id*31 + 5 }
-func labelVal(id int64, p *string) string {
-	if p == nil {
-		return fmt.Sprintf("label-%d", id)
-	}
-	return fmt.Sprintf("label-%d-%s", id, *p)
+// Scalar values embed the datum's version (always 0 in the static worlds of
+// the executor harness, bumped by writers in the live harness).
+func (w *world) tagVal(id, x int64) string {
+	return fmt.Sprintf("tag-%d-%d-v%d", id, x, w.ver[fmt.Sprintf("A.tag/%d", id)])
 }
-func wVal(id int64) int64 { return id*17 + 3 }
+func (w *world) scoreVal(id int64) int64 {
+	return id*31 + 5 + 100000*int64(w.ver[fmt.Sprintf("A.score/%d", id)])
+}
+func (w *world) labelVal(id int64, p *string) string {
+	v := w.ver[fmt.Sprintf("B.label/%d", id)]
+	if p == nil {
+		return fmt.Sprintf("label-%d-v%d", id, v)
+	}
+	return fmt.Sprintf("label-%d-%s-v%d", id, *p, v)
+}
+func (w *world) wVal(id int64) int64 {
+	return id*17 + 3 + 100000*int64(w.ver[fmt.Sprintf("C.w/%d", id)])
+}
 
 // toBatch derives the batch form func(ctx, map[batch.Index]*T[, args]) (map[batch.Index]R, error)
 // of a plain resolver func(ctx, *T[, args]) (R, error): the same logical
@@ -289,9 +306,21 @@ func (w *world) register(obj *schemabuilder.Object, name string, plain interface
 	}
 }
 
-// buildSchema registers every logical field in the mode the run drew for it.
-func (w *world) buildSchema() (*graphql.Schema, error) {
+func (w *world) buildSchema() (*graphql.Schema, error) { return w.build(false) }
+
+// buildSchemaWithMutation adds a Mutation object whose field changes a datum
+// (and invalidates its readers) from inside a resolver.
+func (w *world) buildSchemaWithMutation() (*graphql.Schema, error) { return w.build(true) }
+
+// build registers every logical field in the mode the run drew for it.
+func (w *world) build(withMutation bool) (*graphql.Schema, error) {
 	s := schemabuilder.NewSchema()
+	if withMutation {
+		s.Mutation().FieldFunc("bump", func(ctx context.Context) (string, error) {
+			simrt.Yield()
+			return w.live.mutate(), nil
+		})
+	}
 	q := s.Query()
 	q.FieldFunc("as", func(ctx context.Context) ([]*A, error) {
 		if err := w.point(ctx, "Query.as", 0); err != nil {
@@ -345,13 +374,13 @@ func (w *world) buildSchema() (*graphql.Schema, error) {
 		if err := w.point(ctx, "A.tag", a.ID); err != nil {
 			return "", err
 		}
-		return tagVal(a.ID, args.X), nil
+		return w.tagVal(a.ID, args.X), nil
 	})
 	w.register(oa, "score", func(ctx context.Context, a *A) (int64, error) {
 		if err := w.point(ctx, "A.score", a.ID); err != nil {
 			return 0, err
 		}
-		return scoreVal(a.ID), nil
+		return w.scoreVal(a.ID), nil
 	})
 	w.register(oa, "b", func(ctx context.Context, a *A) (*B, error) {
 		if err := w.point(ctx, "A.b", a.ID); err != nil {
@@ -405,7 +434,7 @@ func (w *world) buildSchema() (*graphql.Schema, error) {
 		if err := w.point(ctx, "B.label", b.ID); err != nil {
 			return "", err
 		}
-		return labelVal(b.ID, args.P), nil
+		return w.labelVal(b.ID, args.P), nil
 	})
 
 	oc := s.Object("C", C{})
@@ -413,7 +442,7 @@ func (w *world) buildSchema() (*graphql.Schema, error) {
 		if err := w.point(ctx, "C.w", c.ID); err != nil {
 			return 0, err
 		}
-		return wVal(c.ID), nil
+		return w.wVal(c.ID), nil
 	})
 	return s.Build()
 }
